@@ -893,6 +893,7 @@ class SyncObj(object):
             newEntries = message.get('entries', [])
             serialized = message.get('serialized', None)
             self.__leaderCommitIndex = leaderCommitIndex = message['commit_index']
+            lastNewIdx = None
 
             # Regular append entries
             if 'prevLogIdx' in message:
@@ -922,7 +923,17 @@ class SyncObj(object):
                 if prevEntries[0][2] != prevLogTerm:
                     self.__sendNextNodeIdx(node, nextNodeIdx = prevLogIdx, success = False, reset=True)
                     return
-                if len(prevEntries) > 1:
+                # Entries that are already in the log (same index and term) are kept:
+                # only a conflicting suffix is deleted, so that a delayed or re-sent
+                # request never removes entries that were acknowledged before.
+                lastNewIdx = prevLogIdx + len(newEntries)
+                matched = 0
+                while matched < len(newEntries) and matched + 1 < len(prevEntries) and \
+                        prevEntries[matched + 1][2] == newEntries[matched][2]:
+                    matched += 1
+                newEntries = newEntries[matched:]
+                prevEntries = prevEntries[matched:]
+                if len(prevEntries) > 1 and newEntries:
                     # rollback cluster changes
                     if self.__conf.dynamicMembershipChange:
                         for entry in reversed(prevEntries[1:]):
@@ -930,7 +941,7 @@ class SyncObj(object):
                             if clusterChangeRequest is not None:
                                 self.__doChangeCluster(clusterChangeRequest, reverse=True)
 
-                    self.__deleteEntriesFrom(prevLogIdx + 1)
+                    self.__deleteEntriesFrom(prevLogIdx + matched + 1)
                 for entry in newEntries:
                     self.__raftLog.add(*entry)
 
@@ -941,9 +952,7 @@ class SyncObj(object):
                         if clusterChangeRequest is not None:
                             self.__doChangeCluster(clusterChangeRequest)
 
-                nextNodeIdx = prevLogIdx + 1
-                if newEntries:
-                    nextNodeIdx = newEntries[-1][1] + 1
+                nextNodeIdx = lastNewIdx + 1
 
                 self.__sendNextNodeIdx(node, nextNodeIdx=nextNodeIdx, success=True)
 
@@ -954,7 +963,9 @@ class SyncObj(object):
                     self.__sendNextNodeIdx(node, success=True)
 
             if leaderCommitIndex > self.__raftCommitIndex:
-                self.__raftCommitIndex = min(leaderCommitIndex, self.__getCurrentLogIndex())
+                # entries after lastNewIdx were not checked against the leader's log
+                checkedIdx = self.__getCurrentLogIndex() if lastNewIdx is None else lastNewIdx
+                self.__raftCommitIndex = max(self.__raftCommitIndex, min(leaderCommitIndex, checkedIdx))
 
             self.__raftLog.setRaftCommitIndex(self.__raftCommitIndex)
 
